@@ -7,17 +7,17 @@ cd "$(dirname "$(readlink -f "$0")")/.."
 wt=$(mktemp -d /tmp/reval.XXXXXX)
 git -C /repo worktree add --detach "$wt" HEAD >/dev/null 2>&1 || exit 2
 trap 'git -C /repo worktree remove --force "$wt" 2>/dev/null; git -C /repo worktree prune' EXIT
-/root/seedkit/build.sh "$wt"
+tools/seedkit/build.sh "$wt"
 for d in seeded/*/; do
   id=$(basename "$d"); [ -f "$d/patch.diff" ] && [ -f "$d/demo.py" ] || continue
   mode=$(python3 -c "import json;print(json.load(open('$d/meta.json')).get('demo_mode','C'))" 2>/dev/null || echo C)
-  run() { if [ "$mode" = PURE ]; then /root/seedkit/runpy.sh "$wt" PURE "$PWD/$d/demo.py" >/dev/null 2>&1; else /root/seedkit/runpy.sh "$wt" "$PWD/$d/demo.py" >/dev/null 2>&1; fi; echo $?; }
+  run() { if [ "$mode" = PURE ]; then tools/seedkit/runpy.sh "$wt" PURE "$PWD/$d/demo.py" >/dev/null 2>&1; else tools/seedkit/runpy.sh "$wt" "$PWD/$d/demo.py" >/dev/null 2>&1; fi; echo $?; }
   clean=$(run)
   if ! git -C "$wt" apply "$PWD/$d/patch.diff" 2>/dev/null; then echo "$id: patch no longer applies"; continue; fi
-  grep -q "coptimizations.c" "$d/patch.diff" && /root/seedkit/build.sh "$wt"
+  grep -q "coptimizations.c" "$d/patch.diff" && tools/seedkit/build.sh "$wt"
   patched=$(run)
   git -C "$wt" checkout -q -- .
-  grep -q "coptimizations.c" "$d/patch.diff" && /root/seedkit/build.sh "$wt"
+  grep -q "coptimizations.c" "$d/patch.diff" && tools/seedkit/build.sh "$wt"
   if [ "$clean" != 0 ] || [ "$patched" = 0 ]; then echo "$id: NO LONGER A DEMONSTRATION (clean=$clean patched=$patched, mode $mode)"; fi
 done
 echo "revalidation finished"
